@@ -33,13 +33,13 @@ type tapPair struct {
 	accepted chan struct{}
 }
 
-type tapConn struct {
+type c10TapConn struct {
 	net.Conn
 	p      *tapPair
 	client bool
 }
 
-func (t *tapConn) Write(b []byte) (int, error) {
+func (t *c10TapConn) Write(b []byte) (int, error) {
 	t.p.mu.Lock()
 	if t.client {
 		t.p.c2s = append(t.p.c2s, b...)
@@ -76,7 +76,7 @@ func (n *tapNet) Dial(network, address string) (net.Conn, error) {
 	n.mu.Lock()
 	n.pairs = append(n.pairs, p)
 	n.mu.Unlock()
-	return &tapConn{Conn: conn, p: p, client: true}, nil
+	return &c10TapConn{Conn: conn, p: p, client: true}, nil
 }
 
 func (n *tapNet) Accept() (net.Conn, error) {
@@ -86,7 +86,7 @@ func (n *tapNet) Accept() (net.Conn, error) {
 	}
 	p := <-n.pending
 	close(p.accepted)
-	return &tapConn{Conn: conn, p: p, client: false}, nil
+	return &c10TapConn{Conn: conn, p: p, client: false}, nil
 }
 func (n *tapNet) Close() error   { return n.l.Close() }
 func (n *tapNet) Addr() net.Addr { return n.l.Addr() }
